@@ -55,7 +55,8 @@ def cases(tier, seed):
         wl = {"class": cls, "nops": nops, "master_mode": r.choice(["fifo", "fifo", "strict"]),
               "hot_rows": r.choice([2, 3]), "hot_cols": 2, "wr_frac": r.choice([0.3, 0.5, 0.7])}
         cfg = dict(mem=mem, cs=cs, nports=nports, workload=wl, seed="C02/%d/%d" % (seed, k),
-                   trefi_override=r.randint(100, 140) if refresh else None, max_cycles=40000, sweep=False, zq=zq)
+                   trefi_override=r.randint(100, 140) if refresh else None, max_cycles=40000, sweep=False, zq=zq,
+                   fsm_coverage=True)
         cfg["name"] = "%03d-%s-%s-p%d-r%d" % (k, mem.get("family", mem.get("cls")), cls, nports, mem.get("nranks", 1))
         cfg["cost"] = corecfg.cost_of(mem, nports, 2500)
         out.append(cfg)
@@ -74,6 +75,7 @@ def run_case(cfg):
     st["bigram_list"] = sorted("%s>%s" % b for b in tr.ref.bigrams)
     st["strobes"] = len(tr.ref.strobe_log)
     st["hang"] = bool(tr.state["hang"])
+    st["fsm_coverage"] = tr.fsm_cov
     refresh = bool(cfg["cs"].get("with_refresh", True))
     nontrivial = (c.get("ACT", 0) >= 1 and (c.get("PRE", 0) + ap) >= 1 and c.get("RD", 0) >= 1 and c.get("WR", 0) >= 1
                   and (not refresh or c.get("REF", 0) >= 1) and st["reopened"] >= 1)
@@ -91,8 +93,13 @@ def aggregate(results, cases):
     counts = {}
     bigr = set()
     matched = cmds = 0
+    fsm = {}
     for r in results:
         st = r.get("stats") or {}
+        for nm, d in (st.get("fsm_coverage") or {}).items():
+            e = fsm.setdefault(nm, dict(states=set(), transitions=set()))
+            e["states"].update(d["states"])
+            e["transitions"].update(d["transitions"])
         for k, n in (st.get("counts") or {}).items():
             counts[k] = counts.get(k, 0) + n
         counts["auto-PRE"] = counts.get("auto-PRE", 0) + (st.get("auto_precharges") or 0)
@@ -101,9 +108,10 @@ def aggregate(results, cases):
         cmds += st.get("cmds", 0) or 0
     by = {c["name"]: c for c in cases}
     samples = [dict(case=r["name"], mem=by.get(r["name"], {}).get("mem"), cs=by.get(r["name"], {}).get("cs"),
-                    verdict=r["verdict"], stats={k: v for k, v in (r.get("stats") or {}).items() if k != "bigram_list"})
+                    verdict=r["verdict"], stats={k: v for k, v in (r.get("stats") or {}).items() if k not in ("bigram_list", "fsm_coverage")})
                for r in results[:3]]
-    return dict(dfi_commands_judged=cmds, commands_by_type=counts, cas_matched_to_port_commands=matched,
+    fsm = {nm: dict(states=sorted(d["states"]), transitions=sorted(d["transitions"])) for nm, d in fsm.items()}
+    return dict(dfi_commands_judged=cmds, commands_by_type=counts, cas_matched_to_port_commands=matched, fsm_coverage_observed=fsm,
                 dfi_command_bigrams_seen=sorted(bigr), samples=samples)
 
 
